@@ -203,7 +203,7 @@ def run(tw, tier, seed, only=None):
             samples.append(rxns)
         if len(fails) > 20:
             break
-    return {"cases": cases, "nontrivial": nontriv, "failures": fails[:20], "samples": samples, "exhaustive": False,
+    return {"cases": cases, "nontrivial": nontriv, "failures": fails, "samples": samples, "exhaustive": False,
             "evaluations": tw.evaluations,
             "bound": "all networks over 3 species with <= %d unit-coefficient reactions (%d) and all their species subsets + %d random networks <= 5 species; "
                      "random flows 0..2, certificates replayed, unrealizable verdicts checked against all orderings when <= 6 firings" % (
